@@ -306,19 +306,20 @@ pub fn render_integer(
 	precision: u16,
 	blank: bool,
 	sign: bool,
-	radix: i64,
+	radix: u128,
 	zero_prefix: &str,
 	prefix_in_padding: bool,
 	caps: bool,
 ) {
 	debug_assert!(iv >= 0.0, "render_integer receives sign using arg");
-	let iv = iv.floor() as i64;
+	// i64 is not enough for doubles, which are often integers >= 2**63 (1e19), u128 holds up to 3.4e38
+	let iv = iv.floor() as u128;
 	// Digit char indexes in reverse order, i.e
 	// for radix = 16 and n = 12f: [15, 2, 1]
 	let digits = if iv == 0 {
 		vec![0u8]
 	} else {
-		let mut v = iv.abs();
+		let mut v = iv;
 		let mut nums = Vec::with_capacity(1);
 		while v != 0 {
 			nums.push((v % radix) as u8);
